@@ -419,7 +419,8 @@ pub fn execute(sc: &CountScenario, sh: &Shared) -> Value {
     struct Outer;
     {
     let mut all = || {
-    let mut prepared: Option<(FuncPtr, CallCountVerifier)> = None;
+    // ManuallyDrop: a prepared pair that is never installed must not judge anything when let go
+    let mut prepared: Option<std::mem::ManuallyDrop<(FuncPtr, CallCountVerifier)>> = None;
     let mut prepared_n = 0u64;
     for (li, lt) in sc.lifetimes.iter().enumerate() {
         sh.note(PH_OTHER, li as u64, 0, 0);
@@ -466,7 +467,7 @@ pub fn execute(sc: &CountScenario, sh: &Shared) -> Value {
                 "e" => site_e(),
                 _ => site_d(),
             };
-            let pair = if si == 0 && lt.prepared_ahead && prepared.is_some() { prepared.take().unwrap() } else { eval() };
+            let pair = if si == 0 && lt.prepared_ahead && prepared.is_some() { std::mem::ManuallyDrop::into_inner(prepared.take().unwrap()) } else { eval() };
             if sc.zero_counter {
                 if let CallCountVerifier::WithCount { counter, .. } = &pair.1 {
                     counter.store(0, Ordering::SeqCst);
@@ -506,7 +507,7 @@ pub fn execute(sc: &CountScenario, sh: &Shared) -> Value {
                 // then put this lifetime's N back: the fake reads `times` again at every call
                 let next_n = sc.lifetimes[li + 1].n;
                 nstat.store(next_n, Ordering::SeqCst);
-                prepared = Some(eval());
+                prepared = Some(std::mem::ManuallyDrop::new(eval()));
                 nstat.store(n_now, Ordering::SeqCst);
                 prepared_n += 1;
             }
